@@ -20,7 +20,9 @@ kTXT == <<116, 120, 116>>  kLIC == <<108, 105, 99>>  kMRK == <<109, 114, 107>>
 kBPM == <<98, 112, 109>>   kVEL == <<118, 101, 108>> kMTR == <<109, 116, 114>>  kKEY == <<107, 101, 121>>
 
 \* unsigned decimal that fits the implementation's integers comfortably (longer digit strings are not generated)
-IsUint(s) == AllDigits(s) /\ Len(s) <= 9
+RECURSIVE StripZeros(_)
+StripZeros(s) == IF Len(s) > 1 /\ s[1] = 48 THEN StripZeros(Tail(s)) ELSE s
+IsUint(s) == AllDigits(s) /\ Len(StripZeros(s)) <= 9          \* leading zeros do not count
 \* "n" or "n/d"
 SplitAt(s, c) == LET S == {i \in 1..Len(s) : s[i] = c} IN IF S = {} THEN 0 ELSE CHOOSE i \in S : \A j \in S : i <= j
 ParseRat(s) == LET k == SplitAt(s, 47) IN
